@@ -31,6 +31,7 @@ bool SimNode::Start()
     signals = std::make_unique<ValidationSignals>(std::move(runner));
     verdicts = std::make_shared<VerdictRecorder>();
     signals->RegisterSharedValidationInterface(verdicts);
+    for (auto& l : opts.listeners) signals->RegisterSharedValidationInterface(l);
 
     if (opts.with_mempool) {
         CTxMemPool::Options mo;
@@ -101,6 +102,7 @@ bool SimNode::Start()
         last_status = node::ChainstateLoadStatus::FAILURE;
         return false;
     }
+    if (opts.after_load) opts.after_load();
     BlockValidationState state;
     if (!chainman->ActiveChainstate().ActivateBestChain(state)) {
         last_error = "ActivateBestChain: " + state.ToString();
@@ -124,6 +126,8 @@ void SimNode::Stop(bool clean)
         if (signals) signals->FlushBackgroundCallbacks();
     }
     if (signals && verdicts) signals->UnregisterSharedValidationInterface(verdicts);
+    if (signals)
+        for (auto& l : opts.listeners) signals->UnregisterSharedValidationInterface(l);
     chainman.reset();
     mempool.reset();
     signals.reset();
